@@ -31,7 +31,7 @@ def is_bool(sequence: Sequence, state: dict):
 
 
 def to_bool(sequence: Sequence, state: dict):
-    return map(bool, sequence)
+    return tuple(map(bool, sequence))
 
 
 @Boolean.register_relationship(Object, Sequence)
@@ -52,7 +52,9 @@ def string_is_bool(sequence: Sequence, state: dict):
 
 @Boolean.register_transformer(String, Sequence)
 def string_to_bool(sequence: Sequence, state: dict):
-    return map(lambda v: v.lower() == "true" if isinstance(v, str) else v, sequence)
+    return tuple(
+        map(lambda v: v.lower() == "true" if isinstance(v, str) else v, sequence)
+    )
 
 
 @Boolean.contains_op.register
